@@ -156,4 +156,4 @@ QUERIES = [
                                "dag": "pointers symbolic (36 shapes); recursion switches symbolic in thorough, T2 only in quick"},
           outside=["more than one value edit followed by one further operation", "cells with several parameters", "N > 3"]),
 ]
-BUDGET = {"quick": 400, "thorough": 2400}
+BUDGET = {"quick": 400, "thorough": 1200}
